@@ -233,7 +233,24 @@ def neighbour_batches(rng, thorough):
         a = rvec(r, n) if r.chance(1, 2) else [r.range(-1, 2) for _ in range(n)]
         b = [a[0]] * n if r.chance(1, 6) else (rvec(r, n) if r.chance(1, 2) else [r.range(-1, 2) for _ in range(n)])
         ops.append(f"nb {r.choice(modes)} {n} {vs(a)} {vs(b)} {r.below(n + 1)}")
-    yield Batch("neighbour-vec-dim", ops, note="vector o dim (+ - * /), contents, is_quadratic, to_dim, to_vector, unit: all pairs over {-1,0,1,2} for dimension 1-3, random dimension 1-4")
+    # mod / ceil_div_signed: every pair of dividend and divisor in [-7,7] in the first component (all sign combinations, exact
+    # quotients, zero), all pairs of 2-vectors over {-2,-1,0,1,2,3}
+    vmodes = ["ss", "rr", "bb", "sr", "rb", "bs"]
+    for x in range(-7, 8):
+        for y in range(-7, 8):
+            ops.append(f"md {vmodes[(x + y) % 6]} 1 {x} {y} {y}")
+            ops.append(f"md {vmodes[(x - y) % 6]} 3 {x},{y},{-x} {y},{x},{y} {y}")
+    dom = [-2, -1, 0, 1, 2, 3]
+    for a0 in dom:
+        for a1 in dom:
+            for b0 in dom:
+                for b1 in dom:
+                    ops.append(f"md {vmodes[(a0 + a1 + b0 + b1) % 6]} 2 {a0},{a1} {b0},{b1} {b0 if (a0 + b1) % 2 else b1}")
+    for _ in range(5000 if thorough else 1000):
+        n = r.range(1, 4)
+        ops.append(f"md {r.choice(vmodes)} {n} {vs(rvec(r, n))} {vs(rvec(r, n))} {r.choice([0, 1, -1, 2, -2, 3, -3, 5, -7, 9])}")
+    yield Batch("neighbour-vec-dim", ops, note="vector o dim (+ - * /), contents, is_quadratic, to_dim, to_vector, unit: all pairs over {-1,0,1,2} for dimension 1-3, random dimension 1-4; "
+                     "mod / ceil_div_signed: all dividend x divisor pairs in [-7,7], all pairs of 2-vectors over [-2,3], random")
     ops = []
     for _ in range(5000 if thorough else 1200):
         k = r.below(4)
@@ -286,7 +303,7 @@ def member_batches(rng, thorough):
 
 def nontrivial(op, result):
     t = op.split()
-    if t[0] in ("bits", "det0", "builders", "mem", "mems", "vecs", "crs", "sqs", "mvs", "nb", "tp", "inf"):
+    if t[0] in ("bits", "det0", "builders", "mem", "mems", "vecs", "crs", "sqs", "mvs", "nb", "md", "tp", "inf"):
         return True
     if t[0] in ("pairs", "trios"):
         return any(int(x) != 0x55 for x in t[2:])      # 0x55 is the zero matrix
